@@ -31,6 +31,13 @@ Fixpoint hep_pre_ok (fs : string) (body : list irule) : bool :=
   | r :: rest => is_jump_to fs r || (ct_rule r && hep_pre_ok fs rest)
   end.
 
+(* untracked (raw table) host endpoint chain: no conntrack rules, the failsafe jump comes first *)
+Definition raw_hep_ok (fs : string) (body : list irule) : bool :=
+  match body with
+  | r :: _ => is_jump_to fs r
+  | [] => false
+  end.
+
 (* dispatch chains: rules match on an interface only and RETURN or GOTO an endpoint chain / one level of child chains *)
 Definition iface_only (ms : list pmatch) : bool :=
   match ms with
